@@ -54,7 +54,8 @@ theorem file_step_needNL (l : DL) (hnl : l.needNL = false) (ev : FileEv) : (onEn
     blocks; extraction writes each file under the side's directory -/
 theorem readEntries_report (sd : Side) (bat : List Nat) (sidePath : Option Str) : ∀ (entries : List Entry) (st : RdState),
     st.l.needNL = false → (∀ e ∈ entries, NiceRec e.rec16) →
-    ∃ st', readEntries sd bat sidePath entries st = (st', none) ∧ st'.mkdirs = st.mkdirs
+    (∀ dir, sidePath = some dir → ∀ e ∈ entries, Tape.collides st.keep (pathJoin dir (fileNameOf e)) = false) →
+    ∃ st', readEntries sd bat sidePath entries st = (st', none) ∧ st'.mkdirs = st.mkdirs ∧ st'.keep = st.keep
       ∧ st'.l = afterFiles st.l (entries.map (evOfEntry bat))
       ∧ st'.writes = st.writes ++ (match sidePath with
           | none => []
@@ -62,11 +63,11 @@ theorem readEntries_report (sd : Side) (bat : List Nat) (sidePath : Option Str) 
   intro entries
   induction entries with
   | nil =>
-    intro st _ _
-    refine ⟨st, rfl, rfl, by rw [List.map_nil, afterFiles_nil], ?_⟩
+    intro st _ _ _
+    refine ⟨st, rfl, rfl, rfl, by rw [List.map_nil, afterFiles_nil], ?_⟩
     cases sidePath <;> simp
   | cons e rest ih =>
-    intro st hnl hn
+    intro st hnl hn hsafe
     obtain ⟨h128, h47, h0, hdot, hdd⟩ := hn e (by simp)
     have hrest : ∀ e' ∈ rest, NiceRec e'.rec16 := fun e' he' => hn e' (by simp [he'])
     simp only [readEntries]
@@ -74,31 +75,34 @@ theorem readEntries_report (sd : Side) (bat : List Nat) (sidePath : Option Str) 
     cases sidePath with
     | none =>
       dsimp only
-      have hmono : ∀ S : RdState, S.mkdirs = st.mkdirs → S.writes = st.writes → S.l = onEndOfFile (onBeginOfFile st.l (evOfEntry bat e)) (evOfEntry bat e) →
-          (∃ st', readEntries sd bat none rest S = (st', none) ∧ st'.mkdirs = S.mkdirs ∧ st'.l = afterFiles S.l (rest.map (evOfEntry bat))
+      have hmono : ∀ S : RdState, S.mkdirs = st.mkdirs → S.keep = st.keep → S.writes = st.writes → S.l = onEndOfFile (onBeginOfFile st.l (evOfEntry bat e)) (evOfEntry bat e) →
+          (∃ st', readEntries sd bat none rest S = (st', none) ∧ st'.mkdirs = S.mkdirs ∧ st'.keep = S.keep ∧ st'.l = afterFiles S.l (rest.map (evOfEntry bat))
             ∧ st'.writes = S.writes ++ []) →
-          ∃ st', readEntries sd bat none rest S = (st', none) ∧ st'.mkdirs = st.mkdirs
+          ∃ st', readEntries sd bat none rest S = (st', none) ∧ st'.mkdirs = st.mkdirs ∧ st'.keep = st.keep
             ∧ st'.l = afterFiles st.l ((e :: rest).map (evOfEntry bat)) ∧ st'.writes = st.writes ++ [] := by
-        intro S hm hw hl ⟨st', h1, h2, h3, h4⟩
-        refine ⟨st', h1, by rw [h2, hm], ?_, by rw [h4, hw]⟩
+        intro S hm hk hw hl ⟨st', h1, h2, h2', h3, h4⟩
+        refine ⟨st', h1, by rw [h2, hm], by rw [h2', hk], ?_, by rw [h4, hw]⟩
         rw [h3, hl, List.map_cons, afterFiles_cons st.l hnl]
-      exact hmono _ rfl rfl rfl (ih _ (file_step_needNL st.l hnl _) hrest)
+      exact hmono _ rfl rfl rfl rfl (ih _ (file_step_needNL st.l hnl _) hrest (fun d hd => by cases hd))
     | some dir =>
       dsimp only
-      rw [fileNameOf_rec e, if_neg (by rw [h47, h0]; decide), if_neg (by simp [hdot, hdd])]
-      have hmono : ∀ S : RdState, S.mkdirs = st.mkdirs →
+      have hs0 := hsafe dir rfl e (by simp)
+      rw [fileNameOf_rec e] at hs0 ⊢
+      rw [if_neg (by rw [h47, h0]; decide), if_neg (by rw [hs0]; decide), if_neg (by simp [hdot, hdd])]
+      have hmono : ∀ S : RdState, S.mkdirs = st.mkdirs → S.keep = st.keep →
           S.writes = st.writes ++ [(pathJoin dir (fileNameOf e), readFile sd bat e)] →
           S.l = onEndOfFile (onBeginOfFile st.l (evOfEntry bat e)) (evOfEntry bat e) →
-          (∃ st', readEntries sd bat (some dir) rest S = (st', none) ∧ st'.mkdirs = S.mkdirs ∧ st'.l = afterFiles S.l (rest.map (evOfEntry bat))
+          (∃ st', readEntries sd bat (some dir) rest S = (st', none) ∧ st'.mkdirs = S.mkdirs ∧ st'.keep = S.keep ∧ st'.l = afterFiles S.l (rest.map (evOfEntry bat))
             ∧ st'.writes = S.writes ++ rest.map (fun e => (pathJoin dir (fileNameOf e), readFile sd bat e))) →
-          ∃ st', readEntries sd bat (some dir) rest S = (st', none) ∧ st'.mkdirs = st.mkdirs
+          ∃ st', readEntries sd bat (some dir) rest S = (st', none) ∧ st'.mkdirs = st.mkdirs ∧ st'.keep = st.keep
             ∧ st'.l = afterFiles st.l ((e :: rest).map (evOfEntry bat))
             ∧ st'.writes = st.writes ++ (e :: rest).map (fun e => (pathJoin dir (fileNameOf e), readFile sd bat e)) := by
-        intro S hm hw hl ⟨st', h1, h2, h3, h4⟩
-        refine ⟨st', h1, by rw [h2, hm], ?_, ?_⟩
+        intro S hm hk hw hl ⟨st', h1, h2, h2', h3, h4⟩
+        refine ⟨st', h1, by rw [h2, hm], by rw [h2', hk], ?_, ?_⟩
         · rw [h3, hl, List.map_cons, afterFiles_cons st.l hnl]
         · rw [h4, hw]; simp
-      exact hmono _ rfl (by rw [readFileImpl_eq]; rfl) rfl (ih _ (file_step_needNL st.l hnl _) hrest)
+      exact hmono _ rfl rfl (by rw [readFileImpl_eq]; rfl) rfl
+        (ih _ (file_step_needNL st.l hnl _) hrest (fun d hd e' he' => hsafe d hd e' (by simp [he'])))
 
 /-! ### one side -/
 
@@ -185,12 +189,13 @@ theorem afterSide_flags (l : DL) (i : Nat) (evs : List FileEv) (u : Usage) :
 
 theorem readSides_report (target : Option Str) : ∀ (sides : List Side) (i : Nat) (st : RdState),
     st.l.needNL = false → st.l.resetNext = false → (∀ sd ∈ sides, SideOk sd ∧ NiceSide sd) →
+    (∀ t, target = some t → ∀ p ∈ sidesFiles t sides i, Tape.collides st.keep p.1 = false) →
     ∃ st', readSides target sides i st = (st', none) ∧ st'.l = afterSides st.l sides i := by
   intro sides
   induction sides with
-  | nil => intro i st _ _ _; exact ⟨st, rfl, rfl⟩
+  | nil => intro i st _ _ _ _; exact ⟨st, rfl, rfl⟩
   | cons sd rest ih =>
-    intro i st hnl hr h
+    intro i st hnl hr h hsafe
     obtain ⟨⟨bat, own, inv⟩, hn⟩ := h sd (by simp)
     have hsb : sideBat sd = bat := by unfold sideBat; rw [inv.hbat]
     have hse : sideEntries sd = (List.range 112).filterMap (entryAt sd own) := by unfold sideEntries; rw [listFiles_inv inv]
@@ -201,9 +206,9 @@ theorem readSides_report (target : Option Str) : ∀ (sides : List Side) (i : Na
     dsimp only
     have hb := beginOfSide_step st.l hnl hr i
     have hnl1 : (onBeginOfSide st.l i).needNL = false := by rw [hb]; exact hnl
-    have hmono : ∀ S : RdState, S.l = onBeginOfSide st.l i →
+    have hmono : ∀ S : RdState, S.l = onBeginOfSide st.l i → S.keep = st.keep →
         (∃ S', readEntries sd bat (target.map fun d => pathJoin d (str "side" ++ digits i)) ((List.range 112).filterMap (entryAt sd own)) S = (S', none)
-          ∧ S'.mkdirs = S.mkdirs ∧ S'.l = afterFiles S.l (((List.range 112).filterMap (entryAt sd own)).map (evOfEntry bat))
+          ∧ S'.mkdirs = S.mkdirs ∧ S'.keep = S.keep ∧ S'.l = afterFiles S.l (((List.range 112).filterMap (entryAt sd own)).map (evOfEntry bat))
           ∧ S'.writes = S.writes ++ (match (target.map fun d => pathJoin d (str "side" ++ digits i)) with
               | none => []
               | some dir => ((List.range 112).filterMap (entryAt sd own)).map (fun e => (pathJoin dir (fileNameOf e), readFile sd bat e)))) →
@@ -211,7 +216,7 @@ theorem readSides_report (target : Option Str) : ∀ (sides : List Side) (i : Na
             | (st', some e) => (st', some e)
             | (st', none) => readSides target rest (i + 1) { st' with l := onEndOfSide st'.l (computeUsage bat) }) = (st', none)
           ∧ st'.l = afterSides st.l (sd :: rest) i := by
-      intro S hS ⟨S', h1, _, h3, _⟩
+      intro S hS hK ⟨S', h1, _, hk', h3, _⟩
       rw [h1]
       dsimp only
       have hl : onEndOfSide S'.l (computeUsage bat) = afterSide st.l i (sideEvs sd) (computeUsage (sideBat sd)) := by
@@ -221,6 +226,12 @@ theorem readSides_report (target : Option Str) : ∀ (sides : List Side) (i : Na
         exact side_step st.l hnl hr i _ _
       obtain ⟨st2, g1, g2⟩ := ih (i + 1) { S' with l := onEndOfSide S'.l (computeUsage bat) }
         (by dsimp only; rw [hl]; exact hnl) (by dsimp only; rw [hl]; exact hr) (fun s hs => h s (by simp [hs]))
+        (by intro t ht p hp
+            show Tape.collides S'.keep p.1 = false
+            rw [hk', hK]
+            apply hsafe t ht p
+            simp only [sidesFiles, List.mem_append]
+            exact Or.inr hp)
       refine ⟨st2, g1, ?_⟩
       rw [g2]
       dsimp only
@@ -228,9 +239,16 @@ theorem readSides_report (target : Option Str) : ∀ (sides : List Side) (i : Na
       rfl
     cases target with
     | none =>
-      exact hmono _ rfl (readEntries_report sd bat none _ _ hnl1 (nice_entries inv hn))
+      exact hmono _ rfl rfl (readEntries_report sd bat none _ _ hnl1 (nice_entries inv hn) (fun d hd => by cases hd))
     | some d =>
-      exact hmono _ rfl (readEntries_report sd bat (some (pathJoin d (str "side" ++ digits i))) _ _ hnl1 (nice_entries inv hn))
+      refine hmono _ rfl rfl (readEntries_report sd bat (some (pathJoin d (str "side" ++ digits i))) _ _ hnl1 (nice_entries inv hn) ?_)
+      intro dir hdir e he
+      cases hdir
+      apply hsafe d rfl (pathJoin (pathJoin d (str "side" ++ digits i)) (fileNameOf e), readFile sd bat e)
+      simp only [sidesFiles, List.mem_append]
+      left
+      rw [← entries_map_eq_sideFiles inv]
+      exact List.mem_map_of_mem he
 
 /-! ### the whole report of a listing / an extraction -/
 
@@ -292,9 +310,10 @@ def readReport (p : Nat) (v : Bool) (img : Image) : Str :=
 
 theorem finish_report (target : Option Str) (sides : List Side) (S : RdState) (hnl : S.l.needNL = false) (hr : S.l.resetNext = false)
     (h0 : S.l.sides = 0) (hf : S.l.filesAll = 0) (hb : S.l.blocksAll = 0)
-    (hall : ∀ sd ∈ sides, SideOk sd ∧ NiceSide sd) :
+    (hall : ∀ sd ∈ sides, SideOk sd ∧ NiceSide sd)
+    (hsafe : ∀ t, target = some t → ∀ p ∈ sidesFiles t sides 0, Tape.collides S.keep p.1 = false) :
     (finishRead (readSides target sides 0 S)).out = [S.l.out ++ readReport S.l.processing S.l.verbose sides] := by
-  obtain ⟨st', h1, h2⟩ := readSides_report target sides 0 S hnl hr hall
+  obtain ⟨st', h1, h2⟩ := readSides_report target sides 0 S hnl hr hall hsafe
   obtain ⟨f1, f2, f3, f4, f5, f6, f7⟩ := afterSides_facts sides S.l 0
   rw [h1]
   simp only [finishRead]
@@ -314,9 +333,9 @@ theorem list_report (fl : Flavour) (verbose : Bool) (img : Image) (h : ImgOk img
     have e : img.getD i [] = img[i] := by rw [List.getD_eq_getElem?_getD, List.getElem?_eq_getElem hi]; rfl
     exact ⟨e ▸ h.2 i hi4, e ▸ hn i hi4⟩
   constructor
-  · rw [finish_report none img _ rfl rfl rfl rfl rfl hall]
+  · rw [finish_report none img _ rfl rfl rfl rfl rfl hall (fun t ht => by cases ht)]
     simp
-  · obtain ⟨st', h1, _⟩ := readSides_report none img 0 { l := { processing := 0, verbose := verbose } } rfl rfl hall
+  · obtain ⟨st', h1, _⟩ := readSides_report none img 0 { l := { processing := 0, verbose := verbose } } rfl rfl hall (fun t ht => by cases ht)
     rw [h1]; rfl
 
 /-- the first line of an extraction with `--into` -/
@@ -328,7 +347,8 @@ def intoText (into : Option Str) : Str :=
 /-- **`--extract` of the archive of a consistent image** prints exactly the `--into` line (if any)
     followed by `readReport 1` -/
 theorem extract_report (fl : Flavour) (verbose : Bool) (archive : Str) (into : Option Str) (img : Image) (h : ImgOk img)
-    (hn : ∀ k, k < 4 → NiceSide (img.getD k [])) :
+    (hn : ∀ k, k < 4 → NiceSide (img.getD k []))
+    (hk : ∀ p ∈ sidesFiles (Tape.targetDirOf archive into) img 0, samePath p.1 archive = false) :
     (extract fl verbose archive into (save fl img)).out = [intoText into ++ readReport 1 verbose img] := by
   unfold extract
   rw [load_save fl img h.wf h.1]
@@ -342,11 +362,11 @@ theorem extract_report (fl : Flavour) (verbose : Bool) (archive : Str) (into : O
   cases into with
   | none =>
     dsimp only
-    rw [finish_report _ img _ rfl rfl rfl rfl rfl hall]
+    rw [finish_report _ img _ rfl rfl rfl rfl rfl hall (fun t ht p hp => by cases ht; exact hk p hp)]
     simp [intoText]
   | some d =>
     dsimp only
-    rw [finish_report _ img _ rfl rfl rfl rfl rfl hall]
+    rw [finish_report _ img _ rfl rfl rfl rfl rfl hall (fun t ht p hp => by cases ht; exact hk p hp)]
     simp [intoText, DL.print, List.append_assoc]
 
 /-! ### the lines of the report and the files of the image -/
